@@ -26,6 +26,19 @@ CHECKS = {
          "(C02_queue_terminates), with the unlocked contrast refuted. Partial: real preemption, the GIL, libgomp and the "
          "memory model are observed (amplified runs + deadline), not modelled.",
          "5 C02", "Coq proof (interleaving/row-locality, queue invariant, termination measure) + amplified differential runs"),
+ "C03": ("proof", "Theorems C03_learn_split, C03_chain (any k-way split = one pass, by induction on the chain), "
+         "C03_dict_run_app / C03_dict_continue (dict_ndl from any weights it can be handed, lazily created rows), "
+         "C03_kernel_continue / C03_kernel_from_any_weights (the kernel computes learn from ANY initial memory), "
+         "C03_labelling_irrelevant (old labels first, new ones appended in any order: any injective numbering gives the same "
+         "name-level weights). Correspondence X-continue: chains over all legal hand-overs and split positions vs the model "
+         "of the whole sequence. Non-mutation of the weights argument is an aliasing fact: monitored on every chain step, "
+         "not proved. WH flavours: see C08.",
+         "5 C03", "Coq proof (fold/append, refinement from arbitrary start state) + chained differential runs + argument snapshots"),
+ "C13": ("proof", "Theorems C13_row_locality, C13_equivariance, C13_cue_order, C13_affine_in_W0, C13_learn0_additive, "
+         "C13_proportional_to_lambda, C13_beta2_zero_absent_rows_fixed, C13_alpha_zero_column_fixed for RWSpec.learn over "
+         "every commutative ring. The check evaluates each law as a relation between runs of the real learners and runs "
+         "a reduced learner=model correspondence through which the theorems transfer.",
+         "5 C13", "Coq proof (ring algebra, induction on events) + metamorphic relations on the real learners"),
  "C06": ("proof", "Theorems C06_decode_encode, C06_kernel_reads_same (buffer re-allocation invariant, any ids per event), "
          "C06_bad_header_rejected / C06_good_chunks_accepted (any position in any chunk list), C06_flat_index_no_wrap / "
          "_injective (matrices with more than 2^32 cells), refuted variants for the pre-repair logic. Correspondence "
